@@ -222,9 +222,7 @@ class QasmOutput:
         self.operations = tuple(ops.flatten_to_ops(operations))
         self.qubits = qubits
         self.header = header
-        self.measurements = tuple(
-            op for op in self.operations if isinstance(op.gate, ops.MeasurementGate)
-        )
+        self.measurements = tuple(self._find_measurements())
         meas_key_id_map, meas_comments = self._generate_measurement_ids()
         self.meas_comments = meas_comments
         qubit_id_map = self._generate_qubit_ids()
@@ -236,6 +234,21 @@ class QasmOutput:
             meas_key_id_map=meas_key_id_map,
             meas_key_bitcount={k: v[0] for k, v in self.cregs.items()},
         )
+
+    def _find_measurements(self) -> Iterator[cirq.Operation]:
+        """Yields measurement gate operations, including those inside composite operations."""
+
+        def is_measurement_gate_op(op: cirq.Operation) -> bool:
+            return isinstance(op.gate, ops.MeasurementGate)
+
+        for op in self.operations:
+            if is_measurement_gate_op(op):
+                yield op
+            elif protocols.is_measurement(op):
+                decomposed = protocols.decompose(
+                    op, keep=is_measurement_gate_op, on_stuck_raise=None
+                )
+                yield from (sub_op for sub_op in decomposed if is_measurement_gate_op(sub_op))
 
     def _generate_measurement_ids(self) -> tuple[dict[str, str], dict[str, str | None]]:
         # Pick an id for the creg that will store each measurement
